@@ -66,7 +66,7 @@ func runC03Oracle(c c03OCase) (violation string, nontrivial bool, labels []strin
 	fee := p.PoolParams.SwapFee
 	perp := sdkmath.LegacyMustNewDecFromStr(c.PerpFac)
 	type res struct {
-		coin                              sdk.Coin
+		coin                             sdk.Coin
 		slippageAmount, bonus, oracleAmt sdkmath.LegacyDec
 	}
 	if c.Kind == "oracle-exact-in" {
